@@ -291,7 +291,7 @@ Proof.
   destruct (negb (submitted e) && _ && _).
   - destruct (our_msg e) as [o|] eqn:Em.
     + split; [|repeat constructor]. constructor; cbn [set_retried esigs our_vaa gs_snap from_chain our_msg submitted]; auto.
-      all: try discriminate.
+      all: rewrite ?Em; try discriminate.
       all: try (intros Hn; destruct (H7 Hn) as [_ X]; discriminate).
     + destruct ck; cbn [negb andb]; [exact I|]. exfalso. apply (H6 eq_refl). apply Hck. reflexivity.
   - split; [exact He|constructor].
